@@ -103,6 +103,7 @@ fn definitions() -> Vec<(String, String, Vec<(String, String)>, bool, bool)> {
 
 fn static_part(out: &mut UnitResult) {
     for (package, name, methods, json_codec, raw) in definitions() {
+        crate::pool::crumb(|| format!("generators on package {package:?} service {name:?}"));
         out.evaluations += 1;
         let ctx = format!("[package {package:?} service {name:?} methods {:?} codec {} raw {raw}]", methods.iter().map(|m| &m.1).collect::<Vec<_>>(), if json_codec { "json" } else { "bincode" });
         let rp = json!({"unit": {"kind": "static"}, "definition": ctx});
